@@ -136,6 +136,9 @@ pub struct Driver {
     pub value_tag: u8,
     /// every op applied so far (lets an oracle replay the history on a twin)
     pub history: Vec<Op>,
+    /// an aborted operation (abandoned ingestion) may have left partial files that only the next
+    /// recovery owns (C20: such histories are held to the reopen clause only)
+    pub partial_files_possible: bool,
 }
 
 #[derive(Clone, Debug, Default)]
@@ -170,6 +173,16 @@ pub struct Fingerprint {
     pub clock: u64,
 }
 
+impl Drop for Driver {
+    fn drop(&mut self) {
+        // the compaction-filter factory (owned by the tree's config) holds the log, and the log holds a
+        // handle on the tree for its in-filter client: break the cycle or the tree would never be dropped
+        if let Some(l) = &self.filter_log {
+            *l.tree.lock().unwrap() = None;
+        }
+    }
+}
+
 pub fn small_value(tag: u8, n: u64) -> Vec<u8> {
     format!("{}{:04}", tag as char, n).into_bytes()
 }
@@ -202,6 +215,7 @@ impl Driver {
             last_op_info: OpInfo::default(),
             value_tag: b'v',
             history: vec![],
+            partial_files_possible: false,
         };
         d.open()?;
         Ok(d)
@@ -540,6 +554,7 @@ impl Driver {
                         .map_err(|e| format!("ingest write: {e:?}"))?;
                     }
                     drop(ing);
+                    self.partial_files_possible = true;
                 }
                 Op::Rotate => {
                     self.t().rotate_memtable();
@@ -691,6 +706,7 @@ impl Driver {
                         *l.tree.lock().unwrap() = None;
                     }
                     self.tree = None;
+                    self.partial_files_possible = false;
                     self.model.reopen();
                     self.snaps.clear();
                     self.open()?;
